@@ -31,6 +31,7 @@ REQUIRED_CLASSES = [
     "interval_random:straddler",
     "interval_random:after_in_place_edit",
     "interval_random:straddler_with_touching_follower",
+    "textgrid_random:textgrid_longer_than_tiers",
 ]
 
 MODES = ["truncate", "categorical", "error"]
@@ -157,10 +158,13 @@ def run_tg_case(case):
     models.cmp_num(res.maxTimestamp, want, exact, [a, b, spec["maxT"]], "textgrid maxTimestamp")
     if res.minTimestamp != spec["minT"]:
         raise Violation("timestamp-changed", f"textgrid minTimestamp {res.minTimestamp} != {spec['minT']}")
+    clean = all((t["minT"], t["maxT"]) == (spec["minT"], spec["maxT"]) for t in spec["tiers"])
     with quiet():
-        if res.validate("silence") is not True:
+        if clean and res.validate("silence") is not True:
             raise Violation("invalid-result", f"Textgrid.eraseRegion result does not validate: tg span "
                             f"[{res.minTimestamp!r},{res.maxTimestamp!r}] vs tiers {[(t.minTimestamp, t.maxTimestamp) for t in res.tiers]}")
+    if not clean:
+        classes.append("textgrid_longer_than_tiers")
     classes = sorted(set(classes))
     return {"classes": classes, "nontrivial": "overlap" in classes or "shrink_moves_entry" in classes}
 
@@ -217,6 +221,8 @@ def region_for(draw, entries_list, style, minT, maxT, degenerate=True):
     bounds = sorted({t for ents in entries_list for en in ents for t in en[:-1]})
     thirds = [x + (y - x) * f for x, y in zip(bounds, bounds[1:]) for f in (0.25, 0.75)]
     cands = list(bounds) + [(x + y) / 2 for x, y in zip(bounds, bounds[1:])] + thirds + thirds + [minT, maxT]
+    if style != "grid" and bounds:
+        cands = cands + [v for b_ in bounds[:4] for v in gen.near_values(b_)]
     cands = [c for c in cands if minT <= c <= maxT]
     pick = st.one_of(st.sampled_from(cands), st.sampled_from(bounds or cands), gen.time_of(style).filter(lambda t: minT <= t <= maxT))
     a = draw(pick)
@@ -264,7 +270,9 @@ def tier_cases(draw):
 def tg_cases(draw):
     style = draw(gen.STYLES_ARITH)
     spec = draw(gen.textgrid(style=style, max_tiers=4, label=gen.AB))
-    a, b = draw(region_for([t["entries"] for t in spec["tiers"]], style, spec["minT"], spec["maxT"]))
+    if draw(st.integers(0, 3)) == 0:
+        spec["maxT"] = spec["maxT"] + 1.0  # a textgrid that is longer than all of its tiers
+    a, b = draw(region_for([t["entries"] for t in spec["tiers"]], style, spec["minT"], min(t["maxT"] for t in spec["tiers"])))
     return {"tg": spec, "a": a, "b": b, "shrink": draw(st.booleans())}
 
 
